@@ -391,8 +391,13 @@ class Loader:
             alloc.update(capacity, obj['rank'], obj.get('rank_adjustment'),
                          obj.get('max_utilization'))
 
+            # A trait that no server has defined yet still is a requirement:
+            # give it a code, servers that bring it later will match.
             trait_list = obj.get('traits', [])
-            traitz, _ = traits.encode(self.trait_codes, trait_list)
+            traitz, code = traits.encode(
+                self.trait_codes, trait_list, add_new=True
+            )
+            self.trait_codes = code
             alloc.set_traits(traitz)
 
             for assignment in obj.get('assignments', []):
